@@ -2,6 +2,7 @@ SPECIFICATION GenSpec
 CONSTANTS
   NK = 3
   NST = 3
+  NL = 3
   NSU = 2
   EmptyKey = 2
   MaxConn = 10
